@@ -59,7 +59,11 @@ class VFSZip(VFS_Real):
             with shelve.open(cache_fspath, "n") as db:
                 for (key, value) in self.dircache.items():
                     db[key] = value
-        except OSError:
+        except Exception:
+            # The index cache is only an optimisation.  Whatever goes wrong
+            # while writing it (no space, no dbm backend, another request
+            # writing the same files at the same moment) must not fail the
+            # request: the index in memory is complete.
             return False
         else:
             return True
